@@ -226,6 +226,7 @@ impl World {
                     pad = *p;
                 }
                 Stmt::KillSelf(sig) => return Err(EvalErr::Fail(-*sig)),
+                Stmt::MkDirs => {}
             }
         }
         let bytes = assemble(&lines, pad);
